@@ -479,52 +479,39 @@ func c02Duplicates(r *an.Run) {
 
 func c02NoLeakage(r *an.Run) {
 	r.Rule("R6-no-leakage-between-attempts")
-	f, _, clo := traversalClosure(r)
-	if f != nil && clo != nil {
+	ts := traversalState(r)
+	if ts != nil && ts.clo != nil {
+		f, clo := ts.f, ts.clo
 		for _, in := range an.StoresIn(clo) {
 			st, ok := in.(*ssa.Store)
 			if !ok {
 				continue
 			}
-			root := an.Root(st.Addr)
-			if fv, isFree := root.(*ssa.FreeVar); isFree {
-				r.Check(strings.HasSuffix(an.ShortType(fv.Type()), "[]*engine.SearchResult"), short(clo)+"|captured-write|"+fv.Name(), st.Pos(), "the traversal callback writes no captured variable except the match list (wrote %s)", fv.Name())
-			}
-		}
-		// the data each attempt starts from: a load of a captured cell that is never written after the closure exists
-		for _, vc := range an.VerdictCalls(clo) {
-			a := an.CallArgs(vc.Call)
-			u, ok := a[2].(*ssa.UnOp)
-			fv, isFree := (ssa.Value)(nil), false
-			if ok {
-				fv, isFree = u.X.(*ssa.FreeVar)
-			}
-			if !r.Check(ok && isFree, short(clo)+"|attempt-data", vc.Call.Pos(), "every match attempt starts from the captured outer data value") {
+			if name, isCell := ts.cellOf(st.Addr); isCell {
+				r.Check(strings.HasSuffix(an.ShortType(st.Addr.Type()), "[]*engine.SearchResult"), short(clo)+"|captured-write|"+name, st.Pos(), "the traversal callback writes no shared traversal state except the match list (wrote %s)", name)
 				continue
 			}
-			// find the binding in the parent and check no store to it after closure creation
-			var cell ssa.Value
-			for _, b := range f.Blocks {
-				for _, in := range b.Instrs {
-					if mc, ok := in.(*ssa.MakeClosure); ok && mc.Fn == ssa.Value(clo) {
-						for i, fvv := range clo.FreeVars {
-							if ssa.Value(fvv) == fv {
-								cell = mc.Bindings[i]
-							}
-						}
-						if cell != nil {
-							for _, b2 := range f.Blocks {
-								for _, in2 := range b2.Instrs {
-									if st, ok := in2.(*ssa.Store); ok && st.Addr == cell && (mc.Block().Dominates(b2) && (b2 != mc.Block() || an.InstrBlockIndex(st) > an.InstrBlockIndex(mc))) {
-										r.Fail(short(f)+"|outer-data-reassigned", st.Pos(), "the outer data is reassigned after the traversal started: later attempts would see earlier attempts' bindings")
-									}
-								}
-							}
-						}
-					}
+			if _, isFree := an.Root(st.Addr).(*ssa.FreeVar); isFree {
+				r.Fail(short(clo)+"|captured-write|"+an.Path(st.Addr), st.Pos(), "the traversal callback writes through a captured variable (%s)", an.Path(st.Addr))
+			}
+		}
+		// the data each attempt starts from: a load of a state cell that is never written after the callback exists
+		for _, vc := range an.VerdictCalls(clo) {
+			a := an.CallArgs(vc.Call)
+			cell, isCell := ts.loadedCell(a[2])
+			if !r.Check(isCell, short(clo)+"|attempt-data", vc.Call.Pos(), "every match attempt starts from the outer data value held in the traversal state") {
+				continue
+			}
+			created := ts.creation()
+			sts := ts.parentStores(cell)
+			for _, st := range sts {
+				b2 := st.Block()
+				if created.Block().Dominates(b2) && (b2 != created.Block() || an.InstrBlockIndex(st) > an.InstrBlockIndex(created)) {
+					r.Fail(short(f)+"|outer-data-reassigned", st.Pos(), "the outer data is reassigned after the traversal started: later attempts would see earlier attempts' bindings")
 				}
 			}
-			r.Check(cell != nil, short(f)+"|outer-data-cell", vc.Call.Pos(), "outer data cell found")
+			// the callback itself never writes it (checked above: only the match list is written)
+			r.Check(len(sts) >= 1 || ts.stateAlloc == nil, short(f)+"|outer-data-cell", vc.Call.Pos(), "outer data cell found")
 		}
 	}
 	// package data is persistent: no store into an existing node
